@@ -9,6 +9,7 @@ CONSTANTS
   Sinces = {0}
   OpenCids = {"o1"}
   MaxTrades = 1
+  ClockSlack = TRUE
   IdSlack = 1000000
 INVARIANT Done
 PROPERTIES TProps
